@@ -33,6 +33,10 @@ type Hasher interface {
 
 // Initializes a HashMap
 func NewHashMap(size uint64, loadfactor float64) *HashMap {
+	// At least one bucket, otherwise indexFor has nothing to index
+	if size == 0 {
+		size = 1
+	}
 	return &HashMap{
 		mapArray:   make([]Bucket, size),
 		capacity:   size,
